@@ -285,7 +285,9 @@ def main(argv):
             "obligations": max(obligations, 1), "discharged": max(discharged, 0) if proof_problems else max(obligations, 1),
             "checker_cmd": "cd /verif/coq && make (coqc 8.16.1, full .vo) && coqc -Q theories Traph %s  # Print Assumptions" % " ".join(propfiles or [propfile]),
             "trusted_base": P.TRUSTED_BASE + spec.get("trusted", []),
-            "theorems": spec.get("theorems", []),
+            "theorems": [m for pf in propfiles for m in re.findall(
+                r"^\s*(?:Theorem|Corollary)\s+([A-Za-z0-9_']+)", re.sub(r"\(\*.*?\*\)", "", open(os.path.join(COQ, pf)).read(), flags=re.S),
+                flags=re.M)] or spec.get("theorems", []),
             "print_assumptions_closed": closed, "axioms": axioms, "coqchk": coqchk_summary,
             "proof_problems": proof_problems,
         }, **cov),
